@@ -66,7 +66,25 @@ def behaviour_from_trace(trace):
     return steps
 
 
+def _replay(ctx):
+    """bin/check C14 --replay FILE: run the behaviour stored in a replay file again on the real code"""
+    obj = json.load(open(ctx.replay))
+    beh = ((obj.get("replay") or {}).get("behaviour")) if isinstance(obj, dict) else None
+    if not beh:
+        ctx.inconclusive("replay file %s holds no behaviour" % ctx.replay)
+        return
+    path = os.path.join(ctx.work, "behaviours.json")
+    with open(path, "w") as f:
+        json.dump([beh], f)
+    rep = ctx.go_driver("pruner", env={"VERIF_BEHAVIOURS": path}, timeout=1500)
+    c = rep.get("counters", {}) if rep else {}
+    ctx.cover(traces_validated_against_impl=int(c.get("behaviours_conforming", 0)), evaluations=1)
+    ctx.sample({"replayed": ctx.replay, "behaviour": beh.get("id")})
+
+
 def run(ctx):
+    if ctx.replay:
+        return _replay(ctx)
     quick = ctx.quick
     ctx.assume("ideal time: timestamps are small integers, mapped to hours; the window test uses the head's time")
     ctx.assume("small scope: <= 6 headers, batch caps 2..3, <= 2 restarts, <= 3 header deletions per behaviour")
